@@ -273,6 +273,7 @@ package multiparty
 // bounded instance (one Q modulus, no P, at most two other parties): the obligation of interest, the
 // precondition of lagrangeCoeff at its call site, does not depend on those sizes
 //@ afunc NewCombiner
+//@   bounded one Q modulus, no P, at most two other parties (loops unwound)
 //@   property C15
 //@   unwind 4
 //@   case len(params.ringQ.SubRings) == 1 ; set params.ringP = nil
@@ -285,6 +286,7 @@ package multiparty
 // ---- a bounded instance, labelled so; the general statement needs an invariant over a ragged matrix.
 //@ afunc EvaluationKeyGenProtocol.GenEvaluationKey#ragged
 //@   property C14
+//@   bounded one ragged shape (digit counts [1 2]), loops unwound: not a proof of the general statement
 //@   case len(share.Value) == 2 && len(share.Value[0]) == 1 && len(share.Value[1]) == 2 && len(crp.Value) == 2 && len(crp.Value[0]) == 1 && len(crp.Value[1]) == 2 && len(evk.Value) == 2 && len(evk.Value[0]) == 1 && len(evk.Value[1]) == 2
 //@   unwind 5
 //@   ensures implies(isnil(err), val(evk.Value[1][1][0].Q) == old(val(share.Value[1][1][0].Q)) && val(evk.Value[1][1][1].Q) == old(val(crp.Value[1][1].Q)))
